@@ -333,6 +333,118 @@ class AW(Part):
                 bad(f'aw_unpegged_state_modified:{key}', f'{where}: state changed from {inp} to {(x, e)}')
 
 
+class AWMove(Part):
+    """
+    Anti-windup limiter whose limit moves while a state is pegged (variable limits such as a voltage-dependent
+    ceiling, or a limit parameter altered between two segments of a run): after the next evaluation the state, and
+    the value scheduled for write-back to the global state vector (``x_set``), must sit at the limit in force now.
+    """
+    name = 'awmove'
+    chunk = 2
+    timeout = 120.0
+
+    def describe(self, tier):
+        return ('AntiWindup / AntiWindupRate, ordered limit pairs {(-1,1), (0,1), (-1,0), (-2,2)}; first check_eq over x in {-2..2} x '
+                'derivative in {-1,0,1}; then one limit moved by +-0.5 (both limits, both directions) and a second and third '
+                'check_eq with derivative in {-1,0,1}: flags, state value, derivative and the x_set write-back values against '
+                'the reference evaluated with the limits in force')
+
+    def cases(self, tier):
+        out = []
+        for cls in ('AntiWindup', 'AntiWindupRate'):
+            for lo, up in ((-1.0, 1.0), (0.0, 1.0), (-1.0, 0.0), (-2.0, 2.0)):
+                for which in ('upper', 'lower'):
+                    for delta in (-0.5, 0.5):
+                        out.append(dict(cls=cls, lower=lo, upper=up, which=which, delta=delta))
+        return out
+
+    def execute(self, case):
+        out = Outcome()
+        seen = {}
+
+        def bad(sig, msg):
+            if sig not in seen:
+                seen[sig] = 1
+                out.bad(sig, msg)
+        obs = []
+        # one component instance per (derivative in call 2, derivative in call 3): with equal derivatives the set of
+        # pegged devices of the instance is the same in both calls (a cache keyed on that set must still follow the limit)
+        for d2, d3 in itertools.product([-1.0, 0.0, 1.0], repeat=2):
+            obs.append(self.one(case, d2, d3, bad))
+        out.obs = obs
+        out.transitions = 27 * len(L) * 3
+        return out
+
+    def one(self, case, d2, d3, bad):
+        from andes.core import discrete as D
+        from andes.core.param import NumParam
+        from andes.core.var import State
+        hist = list(itertools.product(L, [-1.0, 0.0, 1.0]))
+        n = len(hist)
+        X = State()
+        X.v = np.array([h[0] for h in hist])
+        X.e = np.array([h[1] for h in hist])
+        X.a = np.arange(n)
+        LO, UP = NumParam(), NumParam()
+        LO.v = np.full(n, case['lower'])
+        UP.v = np.full(n, case['upper'])
+        if case['cls'] == 'AntiWindup':
+            c = D.AntiWindup(X, LO, UP)
+        else:
+            RL, RU = NumParam(), NumParam()
+            RL.v = np.full(n, -5.0)
+            RU.v = np.full(n, 5.0)
+            c = D.AntiWindupRate(X, LO, UP, RL, RU)
+        c.list2array(n)
+
+        def xset_values():
+            vals = {}
+            for addr, v, _ in c.x_set:
+                for a, val in zip(np.atleast_1d(addr), np.atleast_1d(v)):
+                    vals[int(a)] = float(val)
+            return vals
+        lo, up = case['lower'], case['upper']
+        c.check_eq(niter=0)
+        prev = [ref.antiwindup(h[0], h[1], lo, up) for h in hist]
+        # the limit moves; the solver left the state where the limiter put it
+        if case['which'] == 'upper':
+            UP.v[:] = up + case['delta']
+            up = up + case['delta']
+        else:
+            LO.v[:] = lo + case['delta']
+            lo = lo + case['delta']
+        for stage, d in ((2, d2), (3, d3)):
+            xin = X.v.copy()
+            X.e[:] = d
+            c.check_eq(niter=0)
+            xs = xset_values()
+            for k, h in enumerate(hist):
+                r = ref.antiwindup(float(xin[k]), d, lo, up, prev=(prev[k][0], prev[k][2]), niter=0)
+                got = (float(c.zl[k]), float(c.zi[k]), float(c.zu[k]), float(X.v[k]), float(X.e[k]))
+                where = (f'call {stage} after the {case["which"]} limit moved by {case["delta"]} (limits now [{lo},{up}]), '
+                         f'state {xin[k]}, derivative {d}')
+                AW.compare(bad, got, r, (float(xin[k]), d), lo, up, False, where)
+                if not got[1]:
+                    lim = up if got[2] else lo
+                    if k not in xs:
+                        bad('aw_pegged_state_not_scheduled_for_write_back', f'{where}: pegged but absent from x_set')
+                    elif xs[k] != lim:
+                        bad('aw_write_back_value_not_at_current_limit', f'{where}: x_set holds {xs[k]}, the limit in force is {lim}')
+                elif k in xs:
+                    bad('aw_unpegged_state_scheduled_for_write_back', f'{where}: not pegged but x_set holds {xs[k]}')
+                prev[k] = r
+            if stage == 2:
+                # the limit keeps moving in the same direction before the third call
+                step = 0.25 if case['delta'] > 0 else -0.25
+                if case['which'] == 'upper':
+                    UP.v[:] = up + step
+                    up = up + step
+                else:
+                    LO.v[:] = lo + step
+                    lo = lo + step
+        return dict(zl=c.zl.tolist(), zu=c.zu.tolist(), x=X.v.tolist())
+
+
 class DBRT(Part):
     name = 'dbrt'
     chunk = 64
@@ -621,7 +733,7 @@ class Sim(Part):
 
 
 def parts(tier):
-    return [Flags(), AW(), DBRT(tier), HistoryComp(tier), Sim()]
+    return [Flags(), AW(), AWMove(), DBRT(tier), HistoryComp(tier), Sim()]
 
 
 def run(run, only=None):
